@@ -633,6 +633,8 @@ func c07(w *core.World, r *core.Report) {
 	r.Rule("R06.10", "a full resynchronisation does not carry the target's old position over to the new replication id (shared with C06)", 2)
 	r.Rule("R06.14", "a granted continuation keeps the position the target holds: the output is told to drop it only on a full resynchronisation (shared with C06)", 1)
 	ruleSyncMetaPaths(w, r)
+	r.Rule("R07.8", "every flush stores the one running position (the end offset of the last item taken, pings included) or the received item's own offset", 2)
+	ruleFlushOffsetsFollowEveryItem(w, r, c)
 }
 
 func isIfaceCall(v ssa.Value, suffix string) bool {
